@@ -716,7 +716,7 @@ def ssa_valid_py(n, path):
 
 # ===========================================================================
 def run(ctx):
-    if not standard_proof_steps(ctx, targets=["Model/Processor.vo", "Proofs/ProcessorFacts.vo"]):
+    if not standard_proof_steps(ctx, targets=["Model/Processor.vo"]):
         return
     rng = ctx.rng
     pool = Pool(int(os.environ.get("C05_PROCS", "14")), TIMEOUT)
@@ -1071,8 +1071,11 @@ def judge_processor(ctx, J, what, rec, net, o):
         J.model("simplify + optimize_greedy(costmod=1, temperature=0): ssa_path",
                 "cp_path (cp_greedy (cp_simplify %s %s))" % (ords, cp), path_lit(o["greedy_ssa"]),
                 dict(rec, impl=o["greedy_ssa"], orders=o["orders"]))
-        J.model("simplify + greedy + optimize_remaining_by_size: ssa_path",
-                "cp_path (cp_remaining (cp_greedy (cp_simplify %s %s)))" % (ords, cp), path_lit(o["full_ssa"]),
+        # also the run-time hypotheses of C05_pipeline_valid: fresh processor, no KeyError flagged, one node left
+        J.model("simplify + greedy + optimize_remaining_by_size: ssa_path, ok flag, one node left, fresh start",
+                "let c0 := %s in let c := cp_remaining (cp_greedy (cp_simplify %s c0)) in "
+                "(cp_path c, (cp_ok c, (length (cp_nodes c), (map fst (cp_nodes c0), cp_ssa c0))))" % (cp, ords),
+                "(%s, (true, (1, (seq 0 %d, %d))))" % (path_lit(o["full_ssa"]), n, n),
                 dict(rec, impl=o["full_ssa"], orders=o["orders"]))
         if o["public_greedy_ssa"] != o["full_ssa"]:
             ctx.fail("optimize_greedy(use_ssa=True) differs from the processor passes it is made of",
